@@ -59,6 +59,12 @@ def genOps2 : List (String × R String) := [
   ("g:hrp_expand", do let h ← chars; pure (ansG ints (Gen.bech32_hrp_expand h))),
   ("g:verify_checksum", do let h ← chars; let d ← listOf int; pure (ansG (optS toString) (Gen.bech32_verify_checksum h d))),
   ("g:create_checksum", do let h ← chars; let d ← listOf int; let sp ← int; pure (ansG ints (Gen.bech32_create_checksum h d sp))),
+  ("g:full_pubkey", do let k ← bytes; pure (ansG hex (Gen.schnorr_full_pubkey_gen k))),
+  ("g:negate", do let k ← bytes; pure (ansG hex (Gen.negate_privkey k))),
+  ("g:tweak_pub", do
+      let k ← bytes; let t ← int
+      pure (ansG (fun (r : Bytes × Bool) => s!"{hex r.1} {if r.2 then 1 else 0}") (Gen.tweak_taproot_pubkey k t))),
+  ("g:tweak_priv", do let k ← bytes; let t ← int; pure (ansG hex (Gen.tweak_taproot_privkey k t))),
   ("g:b32_encode", do
       let h ← chars; let d ← listOf int; let sp ← int
       pure (ansG (fun (cs : List Char) => ints (cs.map fun c => (c.toNat : Int))) (Gen.bech32_encode h d sp))),
